@@ -14,8 +14,10 @@ update after every step) on top of the `DDEHistory` model of C19.
   otherwise.
 * `C10_euler_method_of_steps`: for delays that are multiples of the step the whole run equals the explicitly written recurrence
   `y_{i+1} = y_i + dt·f(i·dt, y_i, (y_{i-m})[idx] …)` with constant pre-history, for every number of steps, any body and any growth events.
+* `C10_heun_method_of_steps`: the same for `_solve_heun` - predictor and corrector of a step read the same records, so the run equals the
+  explicitly written Heun recurrence with the reads of step `i` in both slopes.
 * `C10_time_units`: the source scales the step counter by `dt` before subtracting the delay (regenerated table).
-PARTIAL: convergence of this scheme to the solution of the delay equation is textbook numerical analysis and is not mechanised;
+PARTIAL: convergence of these schemes to the solution of the delay equation is textbook numerical analysis and is not mechanised;
 the adaptive (dopri5) path is tied differentially only.
 -/
 namespace PyRates.Delay
@@ -402,6 +404,78 @@ theorem C10_grid_records (body : Body) (dt : Rat) (hdt : 0 < dt) (gf : Nat) (hg 
     rw [e]
     have : i + (n + 1) = i + 1 + n := by omega
     rw [this]; exact hi
+
+/-! ## Heun -/
+
+/-- the explicitly written Heun recurrence for delays on the grid: both slopes use the reads of step `i` -/
+def gridNextHeun (body : Body) (dt : Rat) (ms : List (Nat × Nat)) (all : List Vec) : Vec :=
+  let y := all.getLastD []
+  let t := ((all.length - 1 : Nat) : Rat) * dt
+  let rs := gridReads all ms
+  let k1 := body t y rs
+  let k2 := body t (vadd y (vscale dt k1)) rs
+  vadd y (vscale (dt / 2) (vadd k1 k2))
+
+def gridRunHeun (body : Body) (dt : Rat) (ms : List (Nat × Nat)) : Nat → List Vec → List Vec
+  | 0, all => all
+  | n + 1, all => gridRunHeun body dt ms n (all ++ [gridNextHeun body dt ms all])
+
+/-- one Heun step keeps the invariant and computes the next state of the explicitly written Heun recurrence: the history is read
+twice at the same time with the same records, so predictor and corrector see the same delayed values -/
+theorem C10_heun_step_inv (body : Body) (dt : Rat) (hdt : 0 < dt) (d i : Nat) (all : List Vec) (y : Vec) (h : Hist) (gf : Nat) (hg : 2 ≤ gf)
+    (inv : GInv dt d i all h) (hy : all.getLast? = some y)
+    (ms : List (Nat × Nat)) (hidx : ∀ p ∈ ms, p.1 < d)
+    (hbody : ∀ t (y : Vec) rs, y.length = d → (body t y rs).length = d) :
+    ∃ h', heunStep body (gridTerms dt ms) true dt gf i y h = .ok (gridNextHeun body dt ms all, h') ∧
+      GInv dt d (i + 1) (all ++ [gridNextHeun body dt ms all]) h' := by
+  have hyd : y.length = d := inv.dimAll y (List.mem_of_getLast? hy)
+  have hnext : gridNextHeun body dt ms all =
+      vadd y (vscale (dt / 2) (vadd (body ((i : Rat) * dt) y (gridReads all ms))
+        (body ((i : Rat) * dt) (vadd y (vscale dt (body ((i : Rat) * dt) y (gridReads all ms)))) (gridReads all ms)))) := by
+    simp only [gridNextHeun, inv.len, Nat.add_sub_cancel]
+    rw [List.getLastD_eq_getLast?, hy]; rfl
+  have hk1 : (body ((i : Rat) * dt) y (gridReads all ms)).length = d := hbody _ _ _ hyd
+  have hy0 : (vadd y (vscale dt (body ((i : Rat) * dt) y (gridReads all ms)))).length = d := by
+    rw [vadd_length _ _ (by rw [vscale_length, hk1, hyd]), hyd]
+  have hk2 := hbody ((i : Rat) * dt) _ (gridReads all ms) hy0
+  have hlen : (gridNextHeun body dt ms all).length = d := by
+    rw [hnext, vadd_length _ _ (by rw [vscale_length, vadd_length _ _ (by rw [hk1, hk2]), hk1, hyd]), hyd]
+  obtain ⟨h', hu⟩ := C19_update_ok h (((i : Rat) + 1) * dt) (gridNextHeun body dt ms all) gf (Or.inl inv.grow)
+  refine ⟨h', ?_, GInv_update dt hdt d i all h h' _ gf hg inv hlen hu⟩
+  simp only [heunStep, compiled, fixedTime, if_true]
+  rw [readAll_grid dt hdt d i all h inv ms hidx]
+  simp only
+  rw [← hnext, hu]
+
+/-- **Method of steps for Heun.** -/
+theorem C10_heun_method_of_steps (body : Body) (dt : Rat) (hdt : 0 < dt) (gf : Nat) (hg : 2 ≤ gf) (cap : Nat) (y0 : Vec)
+    (ms : List (Nat × Nat)) (hidx : ∀ p ∈ ms, p.1 < y0.length)
+    (hbody : ∀ t (y : Vec) rs, y.length = y0.length → (body t y rs).length = y0.length) (n : Nat) :
+    ∃ ys yf hf, run (heunStep body (gridTerms dt ms) true dt gf) n 0 y0 (Hist.init y0 0 none cap) = .ok (ys, yf, hf) ∧
+      ys ++ [yf] = gridRunHeun body dt ms n [y0] := by
+  suffices H : ∀ (n i : Nat) (all : List Vec) (y : Vec) (h : Hist), GInv dt y0.length i all h → all.getLast? = some y →
+      ∃ ys yf hf, run (heunStep body (gridTerms dt ms) true dt gf) n i y h = .ok (ys, yf, hf) ∧
+        all.dropLast ++ ys ++ [yf] = gridRunHeun body dt ms n all by
+    obtain ⟨ys, yf, hf, hr, he⟩ := H n 0 [y0] y0 _ (GInv_init dt y0 cap) rfl
+    exact ⟨ys, yf, hf, hr, by simpa using he⟩
+  intro n
+  induction n with
+  | zero =>
+    intro i all y h _ hy
+    refine ⟨[], y, h, rfl, ?_⟩
+    simp only [gridRunHeun, List.append_nil]
+    exact dropLast_append_of_getLast? _ y hy
+  | succ n ih =>
+    intro i all y h inv hy
+    obtain ⟨h', hs, inv'⟩ := C10_heun_step_inv body dt hdt y0.length i all y h gf hg inv hy ms hidx hbody
+    obtain ⟨ys, yf, hf, hr, he⟩ := ih (i + 1) (all ++ [gridNextHeun body dt ms all]) (gridNextHeun body dt ms all) h' inv' (by simp)
+    refine ⟨y :: ys, yf, hf, by simp only [run, hs, hr], ?_⟩
+    simp only [gridRunHeun]
+    rw [← he]
+    simp only [List.dropLast_concat]
+    have := dropLast_append_of_getLast? _ y hy
+    rw [← this]
+    simp
 
 /-! ## pre-history, whatever has been recorded -/
 
